@@ -19,6 +19,8 @@
 //   template<class K> static SK<K> make(uint32_t k, const Cfg&, const Tr<K>::Cmp& instance);
 //   template<class K> static SK<K> roundtrip(const SK<K>&, const Tr<K>::Cmp& instance, bool stream);   // serialize + deserialize
 //   static uint64_t exact_cap(uint32_t k);         // largest n that plain updates keep exact
+//   static const bool self_merge_ok;               // x.merge(x) is supported (merges a snapshot)
+//   static bool convert_gap(uint32_t k, uint64_t n);   // state (k, n) has an empty level below the top one
 //   template<class T> static void bound(const SK<T>&, uint32_t retained, uint64_t n, const std::string& ctx);
 //   template<class T> static void counters(const SK<T>&, const Observed&, bool after_merge);
 #ifndef VF_C07_QUANTILES_ORACLE_HPP
@@ -29,6 +31,7 @@
 #include <limits>
 #include <memory>
 #include <ostream>
+#include <type_traits>
 
 namespace vf { namespace c07 {
 
@@ -658,13 +661,25 @@ template<typename F, typename K> struct Node {
 inline const char* mode_name(bool empty, bool est) { return empty ? "empty" : (est ? "est" : "exact"); }
 
 template<typename F, typename K>
-void feed(typename F::template SK<K>& sk, Model<K>& m, const std::vector<typename Tr<K>::T>& items, Rng& r) {
+bool feed(typename F::template SK<K>& sk, Model<K>& m, const std::vector<typename Tr<K>::T>& items, Rng& r) {
   typedef typename Tr<K>::T T;
   const bool rv = r.chance(0.3);
-  for (const T& x: items) {
-    m.add(x);
-    if (rv) { T c(x); sk.update(std::move(c)); } else sk.update(x);
+  size_t i = 0;
+  try {
+    for (const T& x: items) {
+      m.add(x);
+      if (rv) { T c(x); sk.update(std::move(c)); } else sk.update(x);
+      ++i;
+    }
+  } catch (const std::exception& e) {
+    // update() of a valid item must not throw; the case ends here (model and sketch have diverged)
+    checked();
+    fail(std::string(F::name()) + "|update|threw", std::string("update of a valid item threw: ") + e.what() + " type=" + Tr<K>::name() + " item " + std::to_string(i) + " of the batch (" +
+         Tr<K>::show(items[i]) + "), get_n=" + std::to_string(sk.get_n()) + " accepted so far=" + std::to_string(m.total()) + " k=" + std::to_string(sk.get_k()) + " ; " + G().cur_desc);
+    return false;
   }
+  checked();
+  return true;
 }
 
 template<typename F, typename K>
@@ -701,7 +716,7 @@ void run_case_t(uint64_t idx, Rng& r) {
   pool.reserve(nleaves + 2);
   std::string sample_leaves;
   int64_t next_base = 0;
-  auto grow_leaf = [&](N& nd, const char* what) {
+  auto grow_leaf = [&](N& nd, const char* what) -> bool {
     // one update batch into nd
     const uint32_t k = nd.k0;
     const uint64_t cap = F::exact_cap(k);
@@ -718,11 +733,12 @@ void run_case_t(uint64_t idx, Rng& r) {
     next_base += static_cast<int64_t>(n) + 3;
     const double ps = (TT::has_nan && r.chance(0.02)) ? 1.0 : p_special;    // an all-special (mostly NaN) batch now and then
     const std::vector<T> items = gen_stream<K>(r, n, shape, base, ps, serial);
-    feed<F, K>(*nd.sk, nd.m, items, r);
+    if (!feed<F, K>(*nd.sk, nd.m, items, r)) return false;
     for (const T& x: items) if (!TT::accepted(x)) { fcount(fam, "nan_offered"); break; }
     fcount(fam, std::string("shape_") + shape_name(shape));
     nd.hist += std::string(what) + "(" + shape_name(shape) + "," + std::to_string(n) + ")";
     if (want_sample() && sample_leaves.size() < 400) sample_leaves += "k" + std::to_string(k) + ":" + shape_name(shape) + ":" + std::to_string(n) + ";";
+    return true;
   };
   auto obs = [&](N& nd, const char* after, bool after_merge, unsigned d, bool light = false) {
     const Observed o = observe<F, K>(*nd.sk, nd.m, r, std::string("after ") + after + " " + F::cfg_str(cfg) + " k=" + std::to_string(nd.sk->get_k()) + " hist=" + nd.hist.substr(nd.hist.size() > 300 ? nd.hist.size() - 300 : 0),
@@ -739,10 +755,10 @@ void run_case_t(uint64_t idx, Rng& r) {
     pool.push_back(std::move(nd));
     N& L = pool.back();
     if (r.chance(0.15)) obs(L, "construction", false, 8);
-    grow_leaf(L, "upd");
+    if (!grow_leaf(L, "upd")) return;
     const Observed o = obs(L, "leaf-updates", false, dense, r.chance(0.5));
     fcount(fam, std::string("leaf_") + mode_name(o.empty, o.est));
-    if (r.chance(0.15)) { grow_leaf(L, "upd"); obs(L, "leaf-updates-2", false, dense, r.chance(0.5)); }
+    if (r.chance(0.15)) { if (!grow_leaf(L, "upd")) return; obs(L, "leaf-updates-2", false, dense, r.chance(0.5)); }
   }
   // occasionally a copy of a leaf joins the tree (a sketch merged with its own copy)
   if (r.chance(0.15)) {
@@ -775,7 +791,13 @@ void run_case_t(uint64_t idx, Rng& r) {
     A.m.absorb(B.m);
     obs(A, cls.c_str(), true, dense, r.chance(0.3));
     if (!rvalue && r.chance(0.3)) { obs(B, "being-merge-source", false, 12); fcount(fam, "source_reobserved"); }
-    if (r.chance(0.25)) { grow_leaf(A, " upd"); obs(A, "updates-after-merge", true, dense, r.chance(0.5)); fcount(fam, "update_after_merge"); }
+    if (r.chance(0.25)) { if (!grow_leaf(A, " upd")) return; obs(A, "updates-after-merge", true, dense, r.chance(0.5)); fcount(fam, "update_after_merge"); }
+    if (F::self_merge_ok && r.chance(0.04)) {     // x.merge(x): the stream twice
+      try { SK& self = *A.sk; A.sk->merge(self); }
+      catch (const std::exception& e) { checked(); fail(fam + "|merge|threw", std::string("merging a sketch with itself threw: ") + e.what() + " hist=" + A.hist); return; }
+      { Model<K> twin = A.m; A.m.absorb(twin); }
+      A.hist += " <=self"; obs(A, "self-merge", true, dense, r.chance(0.3)); fcount(fam, "self_merge");
+    }
     if (r.chance(0.04)) { SK& self = *A.sk; SK& same = *A.sk; self = same; A.hist += " self="; obs(A, "self-copy-assignment", true, 16); fcount(fam, "self_assign"); }
     if constexpr (TT::stateful) {
       // the comparator instance must survive moves and (where deserialize takes one) serialization round trips
@@ -833,7 +855,7 @@ void run_case_huge(uint64_t idx, Rng& r) {
   SK sk(F::template make<K>(k, cfg, cmp0));
   Model<K> m(cmp0);
   const std::vector<T> items = gen_stream<K>(r, n0, shape, 0, p_special, serial);
-  feed<F, K>(sk, m, items, r);
+  if (!feed<F, K>(sk, m, items, r)) return;
   m.prep();
   if (m.v.empty()) return;
   auto obs = [&](const char* after, bool light) {
@@ -868,9 +890,99 @@ void run_case_huge(uint64_t idx, Rng& r) {
   (void) idx;
 }
 
+// ------------------------------------------------------------------------------- type-converting construction
+// A float sketch (any state, with emphasis on estimation-mode sources that have an empty intermediate level) is
+// converted to a double sketch through the type-converting constructor.  float -> double is exact and preserves order
+// and equivalence, so the converted sketch is observed against the source's model mapped through the conversion, and
+// then carries on with updates (several times the exact capacity, so every level gets carried into) and merges in
+// both directions under all clauses.
+template<typename F>
+void run_case_convert(uint64_t idx, Rng& r) {
+  typedef typename F::template SK<float> SKF;
+  typedef typename F::template SK<double> SKD;
+  const std::string fam = F::name();
+  const uint32_t s1 = static_cast<uint32_t>(r.next()), s2 = static_cast<uint32_t>(r.next());
+  datasketches::random_utils::rand.seed(s1);
+  datasketches::random_utils::random_bit.seed(s2);
+  const typename F::Cfg cfg = F::cfg(r);
+  const uint32_t k = F::pick_k(r, false);
+  const uint64_t cap = F::exact_cap(k);
+  // source length: empty / exact / estimating over 1..16 exact capacities, so that every level pattern occurs
+  const uint64_t cls = r.below(100);
+  const uint64_t n0 = cls < 5 ? 0 : (cls < 20 ? 1 + r.below(cap) : cap + 1 + r.below(16 * (cap + 1)));
+  const int shape = static_cast<int>(r.below(S_NSHAPES));
+  const double p_special = r.chance(0.3) ? 0.03 : 0.0;
+  describe(fam + " CONVERT float->double " + F::cfg_str(cfg) + " k=" + std::to_string(k) + " n0=" + std::to_string(n0) + " shape=" + shape_name(shape) +
+           " p_special=" + str(p_special) + " coin_seeds=" + std::to_string(s1) + "," + std::to_string(s2));
+  fcount(fam, "convert_cases");
+  uint32_t serial = 0;
+  SKF src(F::template make<float>(k, cfg, std::less<float>()));
+  Model<float> ms;
+  if (!feed<F, float>(src, ms, gen_stream<float>(r, n0, shape, 0, p_special, serial), r)) return;
+  const bool queried = r.coin();            // half of the sources are converted without ever having been queried
+  {
+    const Observed o = observe<F, float>(src, ms, r, "before conversion " + F::cfg_str(cfg) + " k=" + std::to_string(k), 24, r.chance(0.3), !queried);
+    F::template counters<float>(src, o, false);
+  }
+  ms.prep();
+  const bool gap = F::convert_gap(src.get_k(), src.get_n());
+  fcount(fam, std::string("convert_from_") + mode_name(src.is_empty(), src.is_estimation_mode()));
+  if (gap) fcount(fam, "convert_from_source_with_empty_intermediate_level");
+
+  std::unique_ptr<SKD> dst;
+  try { dst.reset(new SKD(src)); }
+  catch (const std::exception& e) { checked(); fail(fam + "|convert|threw", std::string("type-converting construction from a valid sketch threw: ") + e.what()); return; }
+  Model<double> md;
+  for (float x: ms.v) md.add(static_cast<double>(x));
+  auto obs = [&](SKD& sk, Model<double>& m, const char* after, bool light) {
+    const Observed o = observe<F, double>(sk, m, r, std::string("after ") + after + " (float->double conversion) " + F::cfg_str(cfg) + " k=" + std::to_string(sk.get_k()) + " source_n=" + std::to_string(ms.v.size()),
+                                          32, r.chance(0.3), light);
+    F::template counters<double>(sk, o, true);
+    return o;
+  };
+  obs(*dst, md, "conversion", r.chance(0.3));
+  { const Observed o = observe<F, float>(src, ms, r, "being conversion source " + F::cfg_str(cfg) + " k=" + std::to_string(k), 12, false, false); (void) o; }
+
+  // updates on the converted sketch: at least two exact capacities in total, so the base buffer / level 0 fills and
+  // carries propagate through every level that was empty at conversion time
+  const unsigned batches = 1 + static_cast<unsigned>(r.below(3));
+  uint64_t added = 0;
+  for (unsigned b = 0; b < batches || added < 2 * (cap + 1); ++b) {
+    const uint64_t nb = 1 + r.below(2 * (cap + 1) + 8);
+    if (!feed<F, double>(*dst, md, gen_stream<double>(r, nb, static_cast<int>(r.below(S_NSHAPES)), static_cast<int64_t>(r.below(64)), p_special, serial), r)) return;
+    added += nb;
+    obs(*dst, md, "updates on the converted sketch", r.chance(0.4));
+  }
+  fcount(fam, "convert_then_updates_ge_2_capacities");
+  if (gap) fcount(fam, "convert_gap_then_updates_ge_2_capacities");
+
+  // merges from and into the converted sketch
+  SKD other(F::template make<double>(r.coin() ? k : F::pick_k(r, false), cfg, std::less<double>()));
+  Model<double> mo;
+  if (!feed<F, double>(other, mo, gen_stream<double>(r, r.below(6 * (cap + 1)), static_cast<int>(r.below(S_NSHAPES)), static_cast<int64_t>(r.below(64)), p_special, serial), r)) return;
+  try {
+    if (r.coin()) {
+      SKD fresh(src);                       // a second, never-updated conversion is merged into a native sketch
+      Model<double> mf; for (float x: ms.v) mf.add(static_cast<double>(x));
+      if (r.coin()) other.merge(fresh); else other.merge(std::move(fresh));
+      mo.absorb(mf);
+      obs(other, mo, "merge from a freshly converted sketch", false);
+      fcount(fam, "convert_merged_from_fresh");
+    }
+    if (r.coin()) { dst->merge(other); md.absorb(mo); obs(*dst, md, "merge into the converted sketch", false); fcount(fam, "convert_merged_into"); }
+    else { other.merge(*dst); mo.absorb(md); obs(other, mo, "merge from the converted sketch", false); fcount(fam, "convert_merged_from"); }
+  } catch (const std::exception& e) { checked(); fail(fam + "|merge|threw", std::string("merge involving a converted sketch threw: ") + e.what()); return; }
+  (void) idx;
+}
+
 template<typename F, typename K>
 void run_one(uint64_t idx, Rng& r, uint64_t ntypes) {
-  if ((idx / ntypes) % 20 == 7) run_case_huge<F, K>(idx, r); else run_case_t<F, K>(idx, r);
+  const uint64_t slot = (idx / ntypes) % 20;
+  if (slot == 7) run_case_huge<F, K>(idx, r);
+  else if (slot == 3 || slot == 13) {
+    if constexpr (std::is_same<K, float>::value) run_case_convert<F>(idx, r); else run_case_t<F, K>(idx, r);
+  }
+  else run_case_t<F, K>(idx, r);
 }
 
 // Kinds of this translation unit: -DVF_C07_TYPESET=0 arithmetic (float, double, int64), =1 objects (std::string with
